@@ -983,6 +983,12 @@ where
                 }
             };
 
+            // If formatting a previous event unwound out of this function (a
+            // panicking `Debug` impl whose panic was caught further up), the
+            // buffer was never cleared. Don't let that partial record become
+            // the prefix of this one.
+            buf.clear();
+
             let ctx = self.make_ctx(ctx, event);
             if self
                 .fmt_event
